@@ -309,4 +309,11 @@ def run(repo, rep):
     c17.check_normalise(repo, rep, cm)
     c17.check_get_data(repo, rep, cm)
     c17.check_store_on_all_paths(repo, rep, cm)
+    # let(name => value) must bind every name an expression can write
+    from sa.rules import c12
+    from sa import universe as unimod
+    rep.rule('R12e', 'see C12: a function taking arbitrary keyword '
+             'arguments (let) has no hidden parameter whose python name an '
+             'expression can write')
+    c12.check_varkw_collisions(repo, rep, unimod.Universe(repo))
     rep.count(context_store_sites=n)
